@@ -169,6 +169,14 @@ theorem T_C03_size_total_unique {T L s : ℚ} {ρ : ℕ → ℚ} {hi n n' : ℕ}
     (hn : SizeTotalStrict L s ρ n) (hn' : SizeTotalStrict L s ρ n') (h1 : n ≤ hi) (h2 : n' ≤ hi) : n = n' :=
   sizeTotalStrict_unique hf hs hn hn' h1 h2
 
+/-- the same for what the pair theorems actually deliver (`SizeTotalSpec`, non-strict, existential roots):
+    two admissible counts are equal or differ by one at an exact tie -/
+theorem T_C03_size_total_near_unique {T L s : ℚ} {ρ : ℕ → ℚ} {hi n n' : ℕ} (hf : IsRatioFamily T ρ hi)
+    (hs : 0 < s) (hn1 : 1 ≤ n) (hn1' : 1 ≤ n') (h1 : n ≤ hi) (h2 : n' ≤ hi)
+    (hn : SizeTotalSpec L s T n) (hn' : SizeTotalSpec L s T n') :
+    n = n' ∨ (n' = n + 1 ∧ L = s * totalLen ρ n) ∨ (n = n' + 1 ∧ L = s * totalLen ρ n') :=
+  sizeTotalWeak_near_unique hf hs (sizeTotalWeak_of_spec hf hn1 h1 hn) (sizeTotalWeak_of_spec hf hn1' h2 hn') h1 h2
+
 example : IsRatioFamily 64 (fun m => if m = 2 then 64 else if m = 3 then 8 else 4) 4 ∧
     SizeTotalStrict 1 (1 / 80) (fun m => if m = 2 then 64 else if m = 3 then 8 else 4) 4 := by
   constructor
@@ -628,6 +636,61 @@ theorem T_C03_invert_pair {s r L : ℚ} {n : ℕ} (ε : ℚ) :
       (1 / r) ^ (n - 1) = 1 / r ^ (n - 1) := by
   refine ⟨by rw [one_div_one_div], by rw [one_div_one_div], ?_⟩
   rw [one_div, one_div, inv_pow]
+
+/-- reversal, end to end on the model: if the chop (start size `s`, ratio `r`) resolves to `(n, T)`, then the inverted
+    chop (`Chop.invert`: end size `s`, ratio `1/r`) resolves, with the same solver answer for the count, to
+    `(n, 1/T)` — provided both ratios are on the exact branch of the `TOL` switch -/
+theorem T_C03_invert_start_c2c {L s r : ℚ} {o : Oracle} {res : Vals}
+    (h : calculate T0 L o { start := some s, c2c := some r } = .ok res)
+    (hb : TOL < absR (r - 1)) (hb' : TOL < absR (1 / r - 1)) :
+    ∃ res', calculate T0 L o { end_ := some s, c2c := some (1 / r) } = .ok res' ∧
+      res'.count = res.count ∧ res'.total = res.total.map (fun T => 1 / T) := by
+  obtain ⟨n, T, e, hn, hT, he, rfl⟩ := pair_start_c2c h
+  obtain ⟨hL, hs, hr0, ho, hn1, hcase⟩ := countStartC2c_ok hn
+  obtain ⟨_, _, _, hTv⟩ := totalCountC2c_ok hT
+  rcases hcase with ⟨_, hr, ha, hok⟩ | ⟨hun, _⟩
+  swap
+  · exact absurd hb (not_lt.mpr hun)
+  have hri : 0 < 1 / r := by positivity
+  have hri1 : (1 / r) ≠ 1 := by
+    intro h1
+    rw [h1] at hb'
+    simp [absR] at hb'
+    exact absurd hb' (not_lt.mpr (le_of_lt TOL_pos))
+  refine ⟨{ count := some n, start := some (L * (1 - 1 / r) / (1 - (1 / r) ^ n)), end_ := some s, c2c := some (1 / r),
+            total := some ((1 / r) ^ (n - 1)) }, ?_, rfl, ?_⟩
+  · rw [calculate_ok_iff (k := 1) (by exact plan_end_c2c), runSteps3]
+    refine ⟨{ count := some n, end_ := some s, c2c := some (1 / r) },
+      { count := some n, start := some (L * (1 - 1 / r) / (1 - (1 / r) ^ n)), end_ := some s, c2c := some (1 / r) },
+      ?_, ?_, ?_⟩
+    · simp only [applyRel, map_ok]
+      refine ⟨n, ?_, rfl⟩
+      unfold countEndC2c
+      simp only [guardLen_bind, guardSize_bind, guardRatio_bind]
+      rw [if_neg (not_le.mpr hL), if_neg (not_le.mpr hs), if_neg (ne_of_gt hri), if_pos hb', if_neg (not_lt.mpr (le_of_lt hri))]
+      have hbval : 1 + L / s * (1 - 1 / r) / (1 / r) = 1 - L / s * (1 - r) := by field_simp; ring
+      simp only [hbval]
+      rw [if_neg (not_lt.mpr (le_of_lt ha)), if_neg (ne_of_gt ha)]
+      apply oracleCount_intro ho hn1
+      rw [one_div_one_div]; exact hok
+    · simp only [applyRel, map_ok]
+      refine ⟨_, ?_, rfl⟩
+      unfold startCountC2c
+      simp only [guardLen_bind, guardCountGe1_bind, guardRatio_bind]
+      rw [if_neg (not_le.mpr hL), if_neg (by omega), if_neg (ne_of_gt hri), if_pos hb',
+        if_neg (sub_ne_zero.mpr (Ne.symm (pow_ne_one_of_pos hri hri1 hn1)))]
+      rfl
+    · simp only [applyRel, map_ok]
+      refine ⟨_, ?_, rfl⟩
+      unfold totalCountC2c
+      simp only [guardLen_bind, guardCountGe1_bind, guardRatio_bind]
+      rw [if_neg (not_le.mpr hL), if_neg (by omega), if_neg (ne_of_gt hri)]
+      rfl
+  · simp only [Option.map_some, hTv, one_div, inv_pow]
+
+example : TOL < absR ((11 : ℚ) / 10 - 1) ∧ TOL < absR (1 / ((11 : ℚ) / 10) - 1) ∧
+    returned (calculate T0 1 { count := some 8 } { end_ := some (1 / 10), c2c := some (1 / (11 / 10)) }) =
+      some (some 8, some (1 / (19487171 / 10000000))) := by decide +kernel
 
 /-- `Grading.inverted`: divisions in reverse order, same counts (and sum), reciprocal expansion, an involution -/
 theorem T_C03_invert_grading {spec inv : List Division} (h : inverted spec = .ok inv) :
